@@ -143,6 +143,11 @@ pub fn run(case: &Case, thorough: bool) -> CaseRes {
                         break;
                     }
                     Ok(t) => {
+                        // the last entry is a classification counter (how many blocks a refresh applied at
+                        // once); block identifiers, and with them the number of distinct blocks, vary
+                        // legitimately from run to run, so it is not part of the comparison
+                        let strip = |v: &Vec<String>| -> Vec<String> { v.iter().filter(|x| !x.starts_with("meta:")).cloned().collect() };
+                        let (t, b) = (&strip(t), &strip(b));
                         if t != b {
                             let k = b.iter().zip(t.iter()).position(|(x, y)| x != y).unwrap_or(b.len().min(t.len()));
                             res = viol("C18", format!("state digests differ at step {} ({:?}) between [{}] and [{}]", k, case.ops.get(k).map(|o| o.kind()), base.0, name));
